@@ -83,3 +83,13 @@ Theorem C19_transpose : forall a fpre s0 s1 win fpost preds body ipre off d0 d1 
          (mkInput (ipre ++ InBuf off [d1; d0] cells :: ipost) cfg)).
 Proof. exact transpose_correct. Qed.
 Print Assumptions C19_transpose.
+
+(** the loop mode and the window-ness of arguments (at any depth, callees included) are not read by [run]:
+    two procedures that differ only in these annotations have the same outcome on every input.  With the
+    embedding erasing memories, precisions and names, this is why rename / make_instr / set_memory /
+    set_precision / set_window / parallelize_loop cannot change the sequential semantics; the harness checks per
+    instance that source and result are equal after [er_proc]-style erasure. *)
+From Core Require Import Erase.
+Theorem C19_annotations_irrelevant : forall p q inp, er_proc p = er_proc q -> run p inp = run q inp.
+Proof. intros p q inp H. rewrite (run_er p), (run_er q), H. reflexivity. Qed.
+Print Assumptions C19_annotations_irrelevant.
